@@ -1,15 +1,12 @@
 import Secp.Gen.ScalarAPI
 import Secp.Hand.Scalar
+import Secp.Proofs.ScalarErr
 /-! # Ties: regenerated `LessOrEqual`, `CSelect` of `scalar.go` = the model (C13) -/
 namespace ScalarApiTies
 open Hand.Scalar
 
 theorem lessOrEqual_tie (s t : L4) : GenScalarAPI.lessOrEqual s t = lessOrEqual s t := rfl
 
-/-- the error a Go `error` value stands for -/
-def errName : Err → String
-  | .nilScalar => "errParamNilScalar" | .scalarLength => "errParamScalarLength"
-  | .scalarTooBig => "errParamScalarTooBig" | .hexError => "hexError"
 
 theorem cselect_tie (s : L4) (c : Nat) (u v : Option L4) :
     GenScalarAPI.cSelect s c u v = ((cselect s c u v).2, (cselect s c u v).1.map errName) := by
